@@ -130,3 +130,65 @@ def float_to_real(x: float):
 
 def fp_const(x: float):
     return z3.FPVal(x, FP64)
+
+
+class SNorm(Sym):
+    """A symbolic str after .lower() and/or .strip(): comparisons against constants become regular constraints on
+    the ORIGINAL string (case-insensitive letter classes / surrounding whitespace computed from CPython itself)."""
+    __slots__ = ("lower", "strip")
+    pytype = str
+
+    def __init__(self, term, lower=False, strip=False):
+        self.term = term
+        self.lower = lower
+        self.strip = strip
+
+
+_CI = {}
+_WS = []
+
+
+def ci_class(c):
+    """all characters whose str.lower() is the single character c"""
+    if not _CI:
+        for cp in range(0x30000):
+            if 0xD800 <= cp <= 0xDFFF:
+                continue
+            ch = chr(cp)
+            lo = ch.lower()
+            if len(lo) == 1 and lo != ch or (len(lo) == 1 and ch == lo):
+                _CI.setdefault(lo, []).append(ch)
+    return _CI.get(c, [c] if c.lower() == c else [])
+
+
+def strip_chars():
+    if not _WS:
+        for cp in range(0x30000):
+            if 0xD800 <= cp <= 0xDFFF:
+                continue
+            if chr(cp).isspace():
+                _WS.append(chr(cp))
+    return _WS
+
+
+def norm_eq_regex(norm, const):
+    """regex over the original string x such that normalise(x) == const, or None if impossible"""
+    if norm.lower and const != const.lower():
+        return None
+    ws = strip_chars()
+    if norm.strip and const and (const[0] in ws or const[-1] in ws):
+        return None
+    parts = []
+    for c in const:
+        if norm.lower:
+            alts = ci_class(c)
+            if not alts:
+                return None
+            parts.append(z3.Union(*[z3.Re(z3.StringVal(a)) for a in alts]) if len(alts) > 1 else z3.Re(z3.StringVal(alts[0])))
+        else:
+            parts.append(z3.Re(z3.StringVal(c)))
+    core = z3.Concat(*parts) if len(parts) > 1 else (parts[0] if parts else z3.Re(z3.StringVal("")))
+    if norm.strip:
+        w = z3.Star(z3.Union(*[z3.Re(z3.StringVal(a)) for a in ws]))
+        return z3.Concat(w, core, w)
+    return core
